@@ -1110,6 +1110,15 @@ func c12Sweeps(p *runParams) []c12Sweep {
 			out = append(out, c12Sweep{"typecheck-fanout", map[string]any{"k": k, "variant": v}, func(*rand.Rand) []string { return []string{c12Fanout(k, v)} }})
 		}
 	}
+	// densely mutually-referring subject-set relations (every one of k relations is
+	// a union over all k): the number of PATHS through them is factorial in k, the
+	// number of (namespace, relation) pairs to check is k
+	for _, k := range []int{6, 9, 12, 16, 24} {
+		for _, v := range []int{2, 3} {
+			k, v := k, v
+			out = append(out, c12Sweep{"typecheck-dense", map[string]any{"k": k, "variant": v}, func(*rand.Rand) []string { return []string{c12Fanout(k, v)} }})
+		}
+	}
 	// sizes up to 1 MiB
 	sizes := []int{1 << 10, 4 << 10, 16 << 10, 64 << 10, 256 << 10, 1 << 20}
 	if p.thorough() {
